@@ -11,6 +11,9 @@ CLAIMED = {
  "C09": ("exploration", "property-based testing (proptest) against naive evaluation/convolution + exhaustive unit-vector enumeration",
          "Generated-input search: the forward transform of every unit vector X^j (exhaustive, N up to 2048 quick / 8192 thorough, four prime sizes incl. 61-bit) must equal the powers of the independently computed minimal primitive 2N-th root in bit-reversed order; random vectors are checked by Horner evaluation, round trips, lazy-range bounds with congruence, and the convolution theorem against a naive O(N^2) negacyclic product. Because the map is linear the unit-vector enumeration pins the whole matrix for those (N, q).",
          "Trusted: u128 modular arithmetic and refmath (deterministic Miller-Rabin, root search). Lazy ranges are those stated in the code comments.", "DESIGN.md §6 C09"),
+ "C10": ("exploration", "property-based testing (proptest) against big-integer specifications + exhaustive enumeration over small bases",
+         "Generated-input search: for random bases of 1..8 coprime moduli (2..60 bits, any order) every public RNSBase/RNSTool routine is run on boundary-biased integers and compared with its integer specification evaluated in big-integer arithmetic (exact value, or membership of the stated alpha-range for the approximate conversions); the BFV multiplication pipeline is checked as a composition; all ordered pairs/triples of small primes are enumerated over every integer below the product.",
+         "Trusted: BigU/BigI (self-tested), own CRT. Decryption helpers are compared only outside the stated tie margins (2^-40, 2^-30).", "DESIGN.md §6 C10"),
 }
 
 PENDING_REASON = "check not built yet in this session (design in DESIGN.md §6); will be claimed once its harness module exists"
